@@ -294,6 +294,12 @@ def _counters(fn):
         aug = A.as_augassign(n) if isinstance(n, (ast.AugAssign, ast.Assign)) else None
         if aug is not None and isinstance(aug[1], ast.Add) and isinstance(aug[0], ast.Name) and A.is_const(aug[2], 1):
             out.add(aug[0].id)
+        # `for count, val in enumerate(items, 1)`: count is the number of items taken so far
+        if isinstance(n, ast.For) and isinstance(n.iter, ast.Call) and A.call_name(n.iter) == "enumerate" \
+                and isinstance(n.target, ast.Tuple) and len(n.target.elts) == 2 and isinstance(n.target.elts[0], ast.Name):
+            start = n.iter.args[1] if len(n.iter.args) == 2 else A.kwarg(n.iter, "start")
+            if start is not None and A.is_const(start, 1):
+                out.add(n.target.elts[0].id)
     return out
 
 
@@ -472,11 +478,30 @@ def check_block_loops(ctx):
         return
     n = 0
     views = set(FlowAnalyser(res).flow_aliases(fn, ["flow"])[0]) | {"flow"}
+    def _counted(it):
+        # enumerate(x, 1) iterates x
+        return it.args[0] if isinstance(it, ast.Call) and A.call_name(it) == "enumerate" and it.args else it
+
+    def _contradicts_enumerate(p):
+        """An iteration of `for c, v in enumerate(x, 1)` was made and the path then takes `c` for false: infeasible."""
+        done = set()
+        for e in p.ev:
+            if e[0] == "iter" and isinstance(e[1], ast.For) and isinstance(e[1].iter, ast.Call) and A.call_name(e[1].iter) == "enumerate" \
+                    and isinstance(e[1].target, ast.Tuple) and isinstance(e[1].target.elts[0], ast.Name) \
+                    and len(e[1].iter.args) == 2 and A.is_const(e[1].iter.args[1], 1):
+                done.add(e[1].target.elts[0].id)
+            elif e[0] == "cond":
+                for t, pol in A.literals(e[1], e[2]):
+                    if isinstance(t, ast.Name) and t.id in done and not pol:
+                        return True
+        return False
     for p in P.loop_body_paths(outer[0]):
+        if _contradicts_enumerate(p):
+            continue
         n += 1
         pulls = []
         for i, e in enumerate(p.ev):
-            if e[0] == "iter" and isinstance(e[1], ast.For) and A.root_name(e[1].iter) in views:
+            if e[0] == "iter" and isinstance(e[1], ast.For) and A.root_name(_counted(e[1].iter)) in views:
                 pulls.append((i, "for"))
             elif e[0] == "stmt":
                 for c in A.walk_local(e[1]):
